@@ -2,6 +2,7 @@ import ComposeVerif.Lemmas.TravInvS
 import ComposeVerif.Lemmas.TravLive
 import ComposeVerif.Lemmas.TravSkip
 import ComposeVerif.Lemmas.TravRank
+import ComposeVerif.Lemmas.DepGraphProj
 import ComposeVerif.Neg.C13
 import ComposeVerif.Lemmas.AuditCmd  -- makes sure the audit command is built with this module (the check does not build it itself)
 /-!
@@ -304,6 +305,37 @@ theorem self_dependency_refused (s : Svc) (dis : List Name) (hself : ∃ d ∈ s
       simp only [searchCycle, adjOf, List.find?, beq_self_eq_true, List.any_eq_true]
       exact ⟨s.name, this, by simp⟩
     simp [hc]
+
+/-- **a cyclic project is refused before any visit** (project level): `depAdj p` is the dependency graph the property
+speaks about — each service's dependencies that are enabled services.  If it has a closed walk through a service,
+`newGraph` + `checkCycle` never answer "ok" (a missing required dependency is reported first, or the cycle is found), so
+`walk` is not reached and no visitor is called.  Holds for every iteration order: `run` is applied to the lists as given,
+and the statement quantifies over all of them. -/
+theorem cyclic_project_refused (p : Proj) (v : Name) (hv : v ∈ p.services.map (·.name)) (n : Nat)
+    (h : Reaches (depAdj p) n v v) : (run p).cls ≠ "ok" :=
+  cyclic_project_refused_lemma p v hv n h
+
+/-- **accepted ⇔ acyclic** when no required dependency is missing (`build` reports no error): the graph `newGraph`
+hands to `walk` is exactly `depAdj p` (`build_is_depAdj`), it is accepted iff it has no closed walk, and then it has a
+rank function — the hypothesis `GraphOK.rank` under which all traversal theorems are proved. -/
+theorem accepted_iff_acyclic (p : Proj)
+    (hb : (build (p.services.map (·.name)) p.disabled p.services []).1 = none) :
+    ((run p).cls = "ok" ↔ ∀ v ∈ p.services.map (·.name), ∀ n, ¬ Reaches (depAdj p) n v v) ∧
+    ((run p).cls = "ok" → ∃ rk : Name → Nat, ∀ v ∈ p.services.map (·.name), ∀ c ∈ depAdj p v, rk c < rk v) := by
+  have hiff : (run p).cls = "ok" ↔ ∀ v ∈ p.services.map (·.name), ∀ n, ¬ Reaches (depAdj p) n v v := by
+    constructor
+    · intro hok v hv n hr
+      exact cyclic_project_refused_lemma p v hv n hr hok
+    · exact acyclic_project_accepted_lemma p hb
+  refine ⟨hiff, ?_⟩
+  intro hok
+  obtain ⟨rk, hrk, _⟩ := CV.Trav.rank_of_acyclic (depAdj p) _ (depAdj_closed p) (hiff.mp hok)
+  exact ⟨rk, hrk⟩
+
+/-- non-vacuity for the two theorems above: a 3-cycle behind an entry service that sorts first (the shape seed C13-2
+hid from the search) is refused; the same services without the back edge are accepted -/
+example : (run ⟨[⟨0, [⟨1, true⟩]⟩, ⟨1, [⟨2, true⟩]⟩, ⟨2, [⟨1, true⟩]⟩], []⟩).cls = "cycle" ∧
+          (run ⟨[⟨0, [⟨1, true⟩]⟩, ⟨1, [⟨2, true⟩]⟩, ⟨2, []⟩], []⟩).cls = "ok" := by decide
 
 /-- non-vacuity: a chain 2 → 1 → 0 with an optional dependency on a missing service satisfies the hypothesis, is
 accepted and unmodified; closing the chain into a cycle is refused -/
